@@ -1,129 +1,7 @@
-(* Proofs/SrcEqBase.v -- extensionality lemmas for the res monad and the loop combinators, the list-loop
-   characterisations (push loops = map, update loops = map, accumulator loops = fold_left) and the tactics used
-   by Proofs/SrcEq*.v to prove  s_<f> = <hand-written model of f>  where the two are not convertible. *)
 From Coq Require Import List Arith ZArith Lia Bool.
-From OV Require Import Base.Panic Base.Arith Model.Vector gen.SrcPrelude.
+From OV Require Import Base.Panic Base.Arith Model.Vector gen.SrcPrelude Proofs.SrcEqBase.
 Import ListNotations.
 
-(* ------------------------------------------------------------------ monad / loop extensionality *)
-Lemma bind_ext {X Y} (e : res X) (f g : X -> res Y) :
-  (forall x, f x = g x) -> bind e f = bind e g.
-Proof. intros H; destruct e; cbn; auto. Qed.
-
-Lemma bind_ext_ok {X Y} (e : res X) (f g : X -> res Y) :
-  (forall x, e = Ok x -> f x = g x) -> bind e f = bind e g.
-Proof. intros H; destruct e; cbn; auto. Qed.
-
-Lemma bind_ext2 {X Y} (e1 e2 : res X) (f g : X -> res Y) :
-  e1 = e2 -> (forall x, e2 = Ok x -> f x = g x) -> bind e1 f = bind e2 g.
-Proof. intros -> H; now apply bind_ext_ok. Qed.
-
-Lemma bind_ret {X} (e : res X) : bind e Ok = e.
-Proof. destruct e; reflexivity. Qed.
-
-Lemma bind_ret' {X} (e : res X) (f : X -> res X) : (forall x, f x = Ok x) -> bind e f = e.
-Proof. intros H; destruct e; cbn; auto. Qed.
-
-Lemma for_from_ext {S} n lo (b1 b2 : nat -> S -> res S) s :
-  (forall i s, lo <= i < lo + n -> b1 i s = b2 i s) -> for_from n lo b1 s = for_from n lo b2 s.
-Proof.
-  revert lo s; induction n as [|n IH]; intros lo s H; cbn; auto.
-  rewrite H by lia. apply bind_ext; intros s'. apply IH. intros; apply H; lia.
-Qed.
-
-Lemma for_ext {S} lo hi (b1 b2 : nat -> S -> res S) s :
-  (forall i s, lo <= i < hi -> b1 i s = b2 i s) -> for_ lo hi b1 s = for_ lo hi b2 s.
-Proof. intros H; apply for_from_ext; intros; apply H; lia. Qed.
-
-Lemma for_rev_from_ext {S} n lo (b1 b2 : nat -> S -> res S) s :
-  (forall i s, lo <= i < lo + n -> b1 i s = b2 i s) -> for_rev_from n lo b1 s = for_rev_from n lo b2 s.
-Proof.
-  revert s; induction n as [|n IH]; intros s H; cbn; auto.
-  rewrite H by lia. apply bind_ext; intros s'. apply IH. intros; apply H; lia.
-Qed.
-
-Lemma for_rev_ext {S} lo hi (b1 b2 : nat -> S -> res S) s :
-  (forall i s, lo <= i < hi -> b1 i s = b2 i s) -> for_rev lo hi b1 s = for_rev lo hi b2 s.
-Proof. intros H; apply for_rev_from_ext; intros; apply H; lia. Qed.
-
-(* extensionality under an invariant of the state (e.g. "the shape of the matrix is unchanged") *)
-Lemma for_from_ext_inv {S} (I : S -> Prop) n lo (b1 b2 : nat -> S -> res S) s :
-  I s ->
-  (forall i s, lo <= i < lo + n -> I s -> b1 i s = b2 i s) ->
-  (forall i s s', lo <= i < lo + n -> I s -> b2 i s = Ok s' -> I s') ->
-  for_from n lo b1 s = for_from n lo b2 s.
-Proof.
-  revert lo s; induction n as [|n IH]; intros lo s Hs H HI; cbn; auto.
-  rewrite (H lo s) by first [lia | assumption]. apply bind_ext_ok; intros s' E. apply IH.
-  - eapply HI; eauto; lia.
-  - intros; apply H; auto; lia.
-  - intros; eapply HI; eauto; lia.
-Qed.
-
-Lemma for_ext_inv {S} (I : S -> Prop) lo hi (b1 b2 : nat -> S -> res S) s :
-  I s ->
-  (forall i s, lo <= i < hi -> I s -> b1 i s = b2 i s) ->
-  (forall i s s', lo <= i < hi -> I s -> b2 i s = Ok s' -> I s') ->
-  for_ lo hi b1 s = for_ lo hi b2 s.
-Proof.
-  intros Hs H HI. apply (for_from_ext_inv I); auto.
-  - intros; apply H; auto; lia.
-  - intros; eapply HI; eauto; lia.
-Qed.
-
-(* the invariant is established by the loop as well *)
-Lemma for_from_inv_keep {S} (I : S -> Prop) n lo (b : nat -> S -> res S) s s' :
-  I s -> (forall i s s', lo <= i < lo + n -> I s -> b i s = Ok s' -> I s') ->
-  for_from n lo b s = Ok s' -> I s'.
-Proof.
-  intros Hs HI E. apply (for_from_inv_partial (fun _ => I) n lo b s s'); auto.
-Qed.
-Lemma for_inv_keep {S} (I : S -> Prop) lo hi (b : nat -> S -> res S) s s' :
-  I s -> (forall i s s', lo <= i < hi -> I s -> b i s = Ok s' -> I s') ->
-  for_ lo hi b s = Ok s' -> I s'.
-Proof. intros Hs HI E. eapply for_from_inv_keep; eauto. intros; eapply HI; eauto; lia. Qed.
-
-(* ------------------------------------------------------------------ usize subtraction *)
-Lemma usub_Ok a b c : usub a b = Ok c -> b <= a /\ c = a - b.
-Proof. unfold usub; destruct (Nat.leb_spec b a); [|discriminate]. intros E; injection E as <-; auto. Qed.
-Lemma usub_ok a b : b <= a -> usub a b = Ok (a - b).
-Proof. intros H; unfold usub. now apply Nat.leb_le in H as ->. Qed.
-
-Lemma even_mod2 n : (n mod 2 =? 0) = Nat.even n.
-Proof.
-  destruct (Nat.even n) eqn:E.
-  - apply Nat.even_spec in E. destruct E as [k ->]. apply Nat.eqb_eq.
-    rewrite Nat.mul_comm. apply Nat.mod_mul; lia.
-  - apply Nat.eqb_neq. intros H. apply Nat.mod_divides in H; [|lia].
-    destruct H as [k ->]. rewrite Nat.even_mul in E. cbn in E. discriminate.
-Qed.
-
-(* ------------------------------------------------------------------ tactics *)
-(* use what is known about already executed steps: a step that returned Ok x is replaced by its value *)
-Ltac src_rew :=
-  match goal with
-  | H : usub ?a ?b = Ok ?c |- _ => apply usub_Ok in H; let H1 := fresh in destruct H as [H1 ->]
-  | H : ?b <= ?a |- context [usub ?a ?b] => rewrite (usub_ok a b H); cbn [bind]
-  | H : ?e = Ok ?x |- context [bind ?e _] => rewrite H; cbn [bind]
-  end.
-
-(* one structural step of an equality between two monadic terms of the same shape *)
-Ltac src_step :=
-  match goal with
-  | |- _ = _ => reflexivity
-  | |- bind ?e _ = bind ?e _ => apply bind_ext_ok; intros ? ?
-  | |- bind _ _ = bind _ _ => apply bind_ext2; [| intros ? ?]
-  | |- for_ ?lo ?hi _ ?s = for_ ?lo ?hi _ ?s => apply for_ext; intros ? ? ?
-  | |- for_rev ?lo ?hi _ ?s = for_rev ?lo ?hi _ ?s => apply for_rev_ext; intros ? ? ?
-  | |- (if ?c then _ else _) = (if ?c then _ else _) => destruct c eqn:?
-  | |- context [match ?p with pair _ _ => _ end] => is_var p; destruct p
-  | |- context [fst ?p] => is_var p; destruct p; cbn [fst snd]
-  | |- context [snd ?p] => is_var p; destruct p; cbn [fst snd]
-  | |- Ok _ = Ok _ => f_equal
-  end.
-Ltac src_eq := repeat first [ progress src_rew | src_step ].
-
-(* ------------------------------------------------------------------ loops over lists: push / fold / tabulate / update in place *)
 Section ListLoops.
 Context {X Y : Type}.
 
